@@ -32,7 +32,10 @@ def main(tier):
     num = 50 if quick else 800
     depth = 14 if quick else 40
     # the simulation config bounds behaviours by MaxOps; thorough uses longer histories
-    behs, sim = layerb.generate_behaviours("PyDRexC01", "PyDRexC01" if quick else "PyDRexC01_thorough", num, depth, SEED + 101)
+    if quick:
+        behs, sim = layerb.generate_behaviours("PyDRexC01", "PyDRexC01", num, depth, SEED + 101)
+    else:   # tlc -simulate draws `num` behaviours per worker: four workers, a quarter each
+        behs, sim = layerb.generate_behaviours("PyDRexC01", "PyDRexC01_thorough", num // 4, depth, SEED + 101, workers=4, timeout=3000)
     chk.add_tlc("PyDRexC01(simulate)", sim, f"{num} random update histories")
     nlong = 8 if quick else 80
     longs, lsim = layerb.generate_behaviours("PyDRexC01", "PyDRexC01_long", nlong, 16, SEED + 102)
